@@ -89,7 +89,7 @@ type history struct {
 	nOfType      [3]int64
 	uploads      []time.Time
 	log          []string
-	inconsistent bool // the generator deleted a child while the parent referenced it
+	inconsistent bool   // the generator deleted a child while the parent referenced it
 	dates        string // pre-commit part: "2009" | "late" (after osm.CommitInfoStart, still no Committed) | "straddling" (crossing it)
 	ties         int    // same-second upload pairs (child edit, then parent version under another changeset)
 }
